@@ -161,8 +161,8 @@ theorem c03_header_update_region (s s' : St) (isIdx : Bool) (k : HeaderKind) (m 
 
 /-- **File operations.**  AddFile at offset 0 leaves exactly the concatenated block data
 (truncating what was there); at another offset it overlays the old content; the directories
-leading to the file exist afterwards.  DeleteFile removes the file.  MakeDirTree makes the
-directories of its path.  RemoveAll empties the expansion's `sqpack` folder. -/
+leading to the file exist afterwards.  DeleteFile removes the file.  MakeDirTree makes every
+directory of its path, the last component included.  RemoveAll empties the expansion's `sqpack` folder. -/
 theorem c03_file_ops (s s' : St) :
     (∀ off exp path blocks, effect s (.addFile off exp path blocks) = some s' →
       get s'.tree (splitSlash path) = some (.file
@@ -170,8 +170,8 @@ theorem c03_file_ops (s s' : St) :
          else overlay ((fileAt s.tree (splitSlash path)).getD []) off.toNat (fileData blocks)))) ∧
     (∀ exp path, effect s (.deleteFile exp path) = some s' → isFile s.tree (splitSlash path) = true →
       get s'.tree (splitSlash path) = none) ∧
-    (∀ exp path k, effect s (.mkDirTree exp path) = some s' → 0 < k → k ≤ (splitSlash path).dropLast.length →
-      get s'.tree ((splitSlash path).dropLast.take k) = some .dir) ∧
+    (∀ exp path k, effect s (.mkDirTree exp path) = some s' → 0 < k → k ≤ (splitSlash path).length →
+      get s'.tree ((splitSlash path).take k) = some .dir) ∧
     (∀ exp path q, effect s (.removeAll exp path) = some s' → isDir s.tree [sSqpack, Spec.ZiPatch.expansionFolder exp] = true →
       [sSqpack, Spec.ZiPatch.expansionFolder exp] <+: q → get s'.tree q = none) := by
   refine ⟨?_, ?_, ?_, ?_⟩
